@@ -1,6 +1,7 @@
 (** C06 — the receiver is total and rejects exactly the invalid events.
     Property theorems only; every proof is [exact <lemma>]. *)
 From TT Require Import Tunnel.ReceiverAbs Tunnel.ReceiverInv Tunnel.ReceiverHistInv Tunnel.ReceiverAbsProofs.
+From TT Require Import Judge.RecvOk Judge.RecvOkProofs.
 From stdpp Require Import gmap.
 Local Open Scope N_scope.
 
@@ -40,6 +41,20 @@ Theorem C06_outcome_is_reference_outcome : forall st w ev o st' w' calls,
   Inv st -> no_reannounce st ev = true -> try_receive st w ev = (o, st', w', calls) ->
   astep (abs st) ev = (o, abs st').
 Proof. exact try_receive_refines. Qed.
+
+(** Link to the check: on every history in scope the model's own observations pass the executable
+    statement the judge evaluates on the implementation's observations ([ok_c06]: no panic, outcome =
+    reference outcome computed from the observed state; [ok_abstract]: outcomes and span states are
+    the abstract receiver's).  So whenever the correspondence holds on a case, the statement holds. *)
+Theorem C06_judge_ok_on_model : forall steps,
+  hist_scope hist_init steps ->
+  ok_c06 snap_empty steps (map iobs_of (hist_run hist_init steps)) = true.
+Proof. exact ok_c06_model. Qed.
+
+Theorem C06_judge_abstract_ok_on_model : forall steps,
+  hist_scope hist_init steps ->
+  ok_abstract ah_init steps (map iobs_of (hist_run hist_init steps)) = true.
+Proof. exact ok_abstract_model. Qed.
 
 (** Non-vacuity: the repaired F2 and F3 histories (restored without the local map) run without a
     panic or a rejection; a bogus event on the default receiver is rejected. *)
